@@ -131,8 +131,17 @@ class IncrementalCKY:
         """
         c = self._chart.get(prefix)
         if c is None:
-            c = self._compute_chart(prefix)
-            self._chart[prefix] = c
+            # Extend the longest cached prefix one token at a time (iteratively,
+            # so that a cold query on a long context does not exhaust the
+            # interpreter's recursion limit).
+            k = len(prefix)
+            while k > 0 and prefix[:k] not in self._chart:
+                k -= 1
+            for n in range(k, len(prefix) + 1):
+                c = self._chart.get(prefix[:n])
+                if c is None:
+                    c = self._compute_chart(prefix[:n])
+                    self._chart[prefix[:n]] = c
         return c
 
     def _compute_chart(self, prefix):
